@@ -260,13 +260,31 @@ func ruleR20c(c *Ctx) {
 	}
 	src := ""
 	for _, s := range before {
-		ast.Inspect(s, func(x ast.Node) bool {
+		// the statement, and the helpers it calls (the unwrapping loop may live in a function of its own)
+		for _, nd := range c.nodeWithHelpers("data", s, 1) {
+			ast.Inspect(nd, func(x ast.Node) bool {
+				if e, ok := x.(ast.Expr); ok {
+					src += exprKey(e) + ";"
+					if _, isCall := e.(*ast.CallExpr); !isCall {
+						return false
+					}
+				}
+				return true
+			})
+		}
+	}
+	// time.Time may also be recognised as the first thing the struct arm does, before the field-by-field conversion
+	if cc := have["Struct"]; cc != nil && len(cc.Body) > 0 {
+		first := ""
+		ast.Inspect(cc.Body[0], func(x ast.Node) bool {
 			if e, ok := x.(ast.Expr); ok {
-				src += exprKey(e) + ";"
-				return false
+				first += exprKey(e) + ";"
 			}
 			return true
 		})
+		if strings.Contains(first, "timeType") {
+			src += "timeType;"
+		}
 	}
 	c.check(strings.Contains(src, "reflect.Ptr") && strings.Contains(src, "reflect.Interface") && strings.Contains(src, ".Elem()"), "R20c", "data.NewWith unwraps pointers", fd.Pos(), "pointers and interfaces are unwrapped before the kind switch", "pointers/interfaces are not unwrapped before the kind switch")
 	c.check(strings.Contains(src, "!v.IsValid()") || strings.Contains(src, "IsValid()"), "R20c", "data.NewWith nil-after-unwrap", fd.Pos(), "a nil pointer/interface returns before the value is used", "no IsValid test after unwrapping: a nil pointer faults")
